@@ -4,6 +4,8 @@ From Frugal Require Import Bytes Wire Skip Values Desc Spec Encode Decode Checks
 From Frugal.gen Require Import Params.
 From Frugal.proofs Require Import GenDecParams Corollaries BitsetProofs.
 From Frugal.props Require Import Examples.
+From Frugal Require Import DisciplineChecks.
+From Frugal.proofs Require Import GenPools.
 Import ListNotations.
 
 (* decoding a well-formed message fails with the required-field error naming field i exactly when
@@ -56,3 +58,8 @@ Proof. split; vm_compute; reflexivity. Qed.
    for what the translator read from the sources of this run *)
 Theorem C09_side_conditions : dec_params_ok = true.
 Proof. exact dec_params_ok_holds. Qed.
+
+(* structural facts about the Go source which the hand-written model builds in (DisciplineChecks.v),
+   read from the source by the translator and re-proved on every run *)
+Theorem C09_model_assumptions : pools_ok = true.
+Proof. exact pools_ok_holds. Qed.
